@@ -192,6 +192,10 @@ def run_scenario(labrea, scenario, schedule, granularity, order=None):
     for n in (order or names):
         s.spawn(n, Runner(w, s, n, list(scenario["threads"][n])))
     out = s.run()
+    if s.stalled:
+        from .common import MachineryError
+        raise MachineryError("scheduler stalled in scenario %r: a thread blocks on a primitive that is not a cooperative "
+                             "Lock/RLock (no verdict possible)" % (scenario.get("name"),))
     events = [p for (_, _, p) in s.events]
     steps = {n: out[n]["steps"] for n in out}
     errors = {n: out[n]["error"] for n in out if out[n]["error"]}
